@@ -1,4 +1,5 @@
 """C05 — function-of-time entries are reproduced exactly by the ODE that replaces them."""
+import json
 import random
 
 from . import common as C
@@ -74,9 +75,13 @@ def impl_run(task):
                 ind = {"dynamics": [{"expression": "g = " + expr}]}
                 if tsym != "t":
                     ind["options"] = {"input_time_symbol": tsym}
+                if task.get("marker"):
+                    ind.setdefault("options", {})["differential_order_symbol"] = task["marker"]
+                if task.get("hsym"):
+                    ind.setdefault("options", {})["output_timestep_symbol"] = task["hsym"]
                 res = odetoolbox.analysis(ind, disable_stiffness_check=True)
                 signal.alarm(0)
-                out["probe"] = _probe(expr, res, task.get("pseed", 1), tsym)
+                out["probe"] = _probe(expr, res, task.get("pseed", 1), tsym, task.get("hsym") or "__h")
             except _Alarm:
                 out["probe"] = {"skipped": "timeout"}
             except BaseException as e:   # noqa
@@ -109,7 +114,7 @@ def impl_seq(task):
     return {"outcome": "Ok", "results": [impl_run(dict(sub, limit=task.get("limit", 60))) for sub in task["subs"]]}
 
 
-def _probe(expr, res, seed, tsym="t"):
+def _probe(expr, res, seed, tsym="t", hsym="__h"):
     """step from the returned initial values over random steps totalling T; compare with f(T), f'(T), ..."""
     import random
     import mpmath
@@ -132,7 +137,7 @@ def _probe(expr, res, seed, tsym="t"):
     ivs = {k: sympy.parsing.sympy_parser.parse_expr(v, global_dict=dict(ns)) for k, v in ana["initial_values"].items()}
     params = sorted((f.free_symbols - {t}), key=str)
     worst, detail = 0.0, None
-    hs = sympy.Symbol("__h")
+    hs = sympy.Symbol(hsym)
     derivs = [f]
     for k in range(1, n):
         derivs.append(sympy.diff(derivs[-1], t))
@@ -186,7 +191,8 @@ def run(ctx):
     quick = ctx["tier"] == "quick"
     funcs = list(FUNCS) + ([] if quick else SLOW)
     limit = 70 if quick else 900
-    tasks = [{"fn": "c05.impl_run", "expr": e, "limit": limit, "pseed": rng.randint(1, 10 ** 6), "timeout": limit * 2 + 60} for e, _ in funcs]
+    tasks = [{"fn": "c05.impl_run", "expr": e, "limit": limit, "pseed": rng.randint(1, 10 ** 6), "timeout": limit * 2 + 60,
+              "marker": rng.choice([None, None, "_D", "__deriv"]), "hsym": rng.choice([None, None, "dt"])} for e, _ in funcs]
     # the same text under different time symbols, one after another in ONE interpreter: the default symbol, a symbol the text
     # does not mention (every symbol of the text is then a parameter: the function is constant in time), the text rewritten
     # to the other symbol, and the default again
@@ -200,7 +206,7 @@ def run(ctx):
         m_const = "nozero" if m == "nozero" else 1
         subs = [(e, "t", m), (e, other, m_const), (e_o, other, m), (e_o, "t", m_const), (e, "t", m)]
         subs = subs[rng.randint(0, 2):]
-        seq_tasks.append({"fn": "c05.impl_seq", "subs": [{"expr": a, "tsym": b, "pseed": rng.randint(1, 10 ** 6)} for a, b, _ in subs], "ms": [c for _, _, c in subs],
+        seq_tasks.append({"fn": "c05.impl_seq", "subs": [{"expr": a, "tsym": b, "pseed": rng.randint(1, 10 ** 6), "marker": rng.choice([None, None, "_D", "__deriv"]), "hsym": rng.choice([None, None, "dt"])} for a, b, _ in subs], "ms": [c for _, _, c in subs],
                           "limit": min(limit, 240), "timeout": (min(limit, 240) * 2 + 60) * len(subs), "fresh": True})
     res = C.run_tasks(tasks + seq_tasks, timeout=(limit * 2 + 60) * 5)
     coq, info, probe_failures, corr_errors = [], [], [], []
@@ -208,15 +214,20 @@ def run(ctx):
     nontriv = set()
     samples = []
     items = [(expr, "t", m, r, None) for (expr, m), r in zip(funcs, res[:len(funcs)])]
+    subs_of = {}
+    for (expr, m), t0 in zip(funcs, tasks):
+        subs_of[(expr, "t", None)] = [{k_: t0.get(k_) for k_ in ("expr", "tsym", "marker", "hsym")}]
     for t_, r in zip(seq_tasks, res[len(funcs):]):
         if r.get("outcome") != "Ok":
             corr_errors.append("worker failed on sequence %s: %s" % (t_["subs"], str(r)[:200]))
             continue
         for i, (sub, m, rr) in enumerate(zip(t_["subs"], t_["ms"], r["results"])):
-            items.append((sub["expr"], sub["tsym"], m, rr, [[x["expr"], x["tsym"]] for x in t_["subs"][:i + 1]]))
+            seq_ = [[x["expr"], x["tsym"]] for x in t_["subs"][:i + 1]]
+            items.append((sub["expr"], sub["tsym"], m, rr, seq_))
+            subs_of[(sub["expr"], sub["tsym"], json.dumps(seq_))] = [{k_: x.get(k_) for k_ in ("expr", "tsym", "marker", "hsym")} for x in t_["subs"][:i + 1]]
     for expr0, tsym, m, r, seq in items:
         expr = expr0 if (tsym == "t" and seq is None) else "%s [time symbol %s%s]" % (expr0, tsym, ", after %d earlier conversions in the same interpreter" % (len(seq) - 1) if seq and len(seq) > 1 else "")
-        rp_ = {"expr": expr0, "tsym": tsym, "sequence": seq, "m": m}
+        rp_ = {"expr": expr0, "tsym": tsym, "sequence": seq, "m": m, "subs": subs_of.get((expr0, tsym, json.dumps(seq) if seq else None))}
         dist["time_symbols"][tsym] = dist["time_symbols"].get(tsym, 0) + 1
         if r.get("outcome") != "Ok":
             corr_errors.append("worker failed on %s: %s" % (expr, str(r)[:200]))
@@ -274,7 +285,9 @@ def replay(payload):
         return True, "replay file names a broken obligation (no concrete input): " + str(payload.get("no_longer_checks"))[:500]
     m = rp["m"] if "m" in rp else dict((e, mm) for e, mm in FUNCS + SLOW).get(rp["expr"])
     seq = rp.get("sequence") or [[rp["expr"], rp.get("tsym", "t")]]
-    r = C.run_tasks([{"fn": "c05.impl_seq", "subs": [{"expr": a, "tsym": b} for a, b in seq], "limit": 900, "timeout": 2000 * len(seq), "fresh": True}], timeout=2000 * len(seq))[0]
+    subs = rp.get("subs") or [{"expr": a, "tsym": b} for a, b in seq]
+    subs = [dict(x, tsym=x.get("tsym") or "t") for x in subs]
+    r = C.run_tasks([{"fn": "c05.impl_seq", "subs": subs, "limit": 900, "timeout": 2000 * len(seq), "fresh": True}], timeout=2000 * len(seq))[0]
     if r.get("outcome") != "Ok":
         return True, "replay could not run: %s" % str(r)[:200]
     r = r["results"][-1]
